@@ -234,9 +234,15 @@ class Endpoint:
                  protocols=None, headers=None, hooks=None, proto_attrs=None, proto_class_attrs=None,
                  **fkw):
         self.role = role
-        self.envobj = new_env(start)
-        self.factory = make_factory(role, self.envobj, opts, url, protocols, headers, compress,
-                                    **fkw)
+        shared = fkw.pop("factory", None)
+        if shared is not None:
+            # a further connection of an existing factory (one server factory serves many peers)
+            self.envobj = fkw.pop("envobj")
+            self.factory = shared
+        else:
+            self.envobj = new_env(start)
+            self.factory = make_factory(role, self.envobj, opts, url, protocols, headers, compress,
+                                        **fkw)
         if proto_class_attrs:
             # per-protocol overrides of factory options declared on the protocol CLASS
             base = self.factory.protocol
